@@ -630,6 +630,7 @@ DEVIATIONS = OrderedDict([
     ('dec_param_text', 'C01-DECIMAL-PARAM-TEXT-COMPARE'),
     ('date_param_delta', 'C01-DATE-PARAM-TIMEDELTA-TEXT'),
     ('notin_subquery_nulls', 'C01-NOT-IN-SUBQUERY-IGNORES-NULLS'),
+    ('bool_arith_bool', 'C01-BOOL-ARITHMETIC-TYPED-BOOL'),
 ])
 
 
@@ -667,6 +668,14 @@ class Interp(object):
         self.dectext_projected = False
 
     # -- helpers -------------------------------------------------------------------------------------------------
+    def project_bool(self, val):
+        """A projected value typed bool by pony (bool op bool, or sum/min/max of it) goes through bool()."""
+        items = val if isinstance(val, tuple) else (val,)
+        if not any(isinstance(v, BoolTyped) for v in items): return val
+        if any(isinstance(v, BoolTyped) and int(v) not in (0, 1) for v in items): self.sites.add('bool_arith_bool')
+        bt = lambda v: (bool(v) if 'bool_arith_bool' in self.dev else int(v)) if isinstance(v, BoolTyped) else v
+        return tuple(bt(v) for v in val) if isinstance(val, tuple) else bt(val)
+
     def pyraise(self, why=''):
         if self.strict: raise PyWouldRaise(why)
         self.row_flag = True
@@ -784,7 +793,7 @@ class Interp(object):
         if isinstance(a, ast.Constant) and a.value == '*': return True
         if node.func.id in ('min', 'max') and len(node.args) > 1: return False
         if self.is_coll(a): return False
-        if not any(isinstance(n, ast.Name) and n.id in self.tenv for n in ast.walk(a)):
+        if self.is_external(a):
             raise Unsupported('aggregate of an external (variable-free) expression is evaluated by python itself')
         return True
 
@@ -995,6 +1004,8 @@ class Interp(object):
         v = self.ev(node.operand, env)
         if v is None: return self.nullprop()
         if v is U or not isinstance(v, NUM): raise Unsupported('unary on %r' % (v,))
+        if isinstance(v, (bool, BoolTyped)) and not self.is_external(node):
+            return BoolTyped(-int(v) if isinstance(node.op, ast.USub) else int(v))      # pony keeps the operand type (bool)
         if isinstance(node.op, ast.USub): return -v
         if isinstance(node.op, ast.UAdd): return +v
         raise Unsupported('unary op')
@@ -1033,6 +1044,8 @@ class Interp(object):
         if isinstance(a, Decimal) and isinstance(b, float) or isinstance(a, float) and isinstance(b, Decimal):
             raise NoReference('Decimal with float')
         ext = node is not None and self.is_external(node)
+        if isinstance(a, (bool, BoolTyped)) and isinstance(b, (bool, BoolTyped)) and opn in ('Add', 'Sub', 'Mult') and not ext:
+            return BoolTyped({'Add': int(a) + int(b), 'Sub': int(a) - int(b), 'Mult': int(a) * int(b)}[opn])
         try:
             if opn == 'Add': return a + b
             if opn == 'Sub': return a - b
@@ -1267,10 +1280,15 @@ class Interp(object):
         return self.gen_bag(node, env)
 
     def gen_bag(self, node, env):
-        if any(self.has_qaggr(g) for gen in node.generators for g in gen.ifs) or self.has_qaggr(node.elt):
-            raise Unsupported('aggregate inside nested generator')
         saved_tenv, saved_strict = self.tenv, self.strict
         self.tenv = dict(self.tenv); self.strict = False
+        try:
+            self.bind_static(node.generators)
+            if any(self.has_qaggr(g) for gen in node.generators for g in gen.ifs) or self.has_qaggr(node.elt):
+                raise Unsupported('aggregate inside nested generator')
+        except Unsupported:
+            self.tenv, self.strict = saved_tenv, saved_strict
+            raise
         self.depth += 1
         out = []
         try:
@@ -1340,6 +1358,7 @@ class Interp(object):
 
     def aggregate(self, name, values, distinct=None, sep=None):
         vals = [v for v in values if v is not None and v is not U]
+        if any(isinstance(v, GroupConcat) for v in vals): raise Unsupported('aggregate over group_concat values')
         if name == 'count':
             if distinct is False: return len(vals)
             return len({canon(v) for v in vals})
@@ -1349,12 +1368,13 @@ class Interp(object):
                 k = canon(v)
                 if k not in seen: seen.add(k); out.append(v)
             vals = out
+        tagged = bool(vals) and all(isinstance(v, (bool, BoolTyped)) for v in vals)
         if name == 'sum':
             tot = 0
             for v in vals:
                 if not isinstance(v, NUM): raise NoReference('sum of non-numbers')
                 tot = tot + v
-            return tot
+            return BoolTyped(int(tot)) if tagged else tot
         if not vals: return None
         if name == 'avg':
             for v in vals:
@@ -1367,8 +1387,9 @@ class Interp(object):
                 if 'dec_param_text' in self.dev:
                     key = lambda v: (1, str(v)) if isinstance(v, DecText) else (0, v)
                     return min(vals, key=key) if name == 'min' else max(vals, key=key)
-            try: return min(vals) if name == 'min' else max(vals)
+            try: r = min(vals) if name == 'min' else max(vals)
             except TypeError: raise NoReference('min/max mixed types')
+            return BoolTyped(int(r)) if tagged and isinstance(r, BoolTyped) else r
         if name == 'group_concat':
             parts = []
             for v in vals:
@@ -1437,6 +1458,7 @@ class Interp(object):
         if name == 'abs':
             if vals[0] is None: return self.nullprop()
             if not isinstance(vals[0], NUM): raise Unsupported('abs arg')
+            if isinstance(vals[0], (bool, BoolTyped)): return BoolTyped(abs(int(vals[0])))
             return abs(vals[0])
         if name == 'coalesce':
             for v in vals:
@@ -1535,6 +1557,10 @@ class Interp(object):
         raise Unsupported('method ' + name)
 
     def ev_Lambda(self, node, env): raise Unsupported('lambda value')
+
+
+class BoolTyped(int):
+    """Result of bool (+|-|*) bool: pony types the expression bool, so a PROJECTED value goes through bool()."""
 
 
 class DecText(Decimal):
@@ -1717,6 +1743,7 @@ def eval_rows(it, tree):
                     raise Unsupported('collection-valued projection (pony flattens it)')
                 if isinstance(val, DecText) or (isinstance(val, tuple) and any(isinstance(v, DecText) for v in val)):
                     it.dectext_projected = True
+                val = it.project_bool(val)
                 val = canon(val)
             r.flag = r.flag or it.row_flag
             res[mode] = (inc, val)
@@ -1777,7 +1804,7 @@ def eval_aggregated(it, tree):
             ok = it.t_and([it.truth(ev_group(it, h, genvs)) for h in having]) is True
             if ok:
                 vals = [ev_group(it, e, genvs) for e in elts]
-                vals = [None if v is U else v for v in vals]
+                vals = [None if v is U else it.project_bool(v) for v in vals]
                 out.append(canon(vals[0]) if not isinstance(tree.elt, ast.Tuple) else tuple(canon(v) for v in vals))
             if it.row_flag or it.amb_seen: uncertain[0] = True
         return out
@@ -2128,6 +2155,7 @@ def reference(program, mirror, dev=()):
             rr.no_dups = False
             if not rr.aggregated: rr.order_check = make_order_check(rr, step, program)
             if 'date_param_delta' in it.sites and 'date_param_delta' in it.dev: rr.order_check = None
+            if 'bool_arith_bool' in it.sites and 'bool_arith_bool' in it.dev: rr.order_check = None   # sorted by the integer, shown as bool
             if it.dectext_projected:
                 # a TEXT-bound Decimal in the ordered projection sorts after every number in sqlite
                 rr.sites.add('dec_param_text')
@@ -2276,6 +2304,7 @@ def judge(env, program, dev_rules=None, result=None):
     # deviation-rule pass: KNOWN only if some combination of the encountered deviation sites reproduces pony exactly.
     # Sites hidden behind another deviation (rows the base reading never evaluates) surface in later rounds.
     all_sites, tried = set(rr.sites), set()
+    dev_unsupported = False
     for _round in range(3):
         sites = [s for s in dev_rules if s in all_sites]
         combos = [(s,) for s in sites]
@@ -2289,7 +2318,8 @@ def judge(env, program, dev_rules=None, result=None):
             tried.add(combo)
             try:
                 rr2 = reference(program, env.mirror, dev=combo)
-            except (Unsupported, NoReference): continue
+            except (Unsupported, NoReference):
+                dev_unsupported = True; continue
             all_sites |= rr2.sites
             st2, _ = compare(result, rr2)
             if st2 in ('agree', 'lenient_agree') or (rr2.unpredictable and 'aggr_optimize' in combo):
@@ -2303,6 +2333,9 @@ def judge(env, program, dev_rules=None, result=None):
             v = Verdict('known', program, result, rr, detail, findings=[fid])
             v.by_shape = True
             return v
+    if dev_unsupported:
+        # rows that only a deviant reading includes reach constructs outside the modelled fragment: not judged
+        return Verdict('unsupported', program, result, rr, 'outside the model under a deviation rule')
     return Verdict('disagree', program, result, rr, detail)
 
 
@@ -2366,6 +2399,8 @@ TEMPLATES = [
     T('int.year', 'int', ('date',), '{0}.year', 'date'), T('int.month', 'int', ('date',), '{0}.month', 'date'),
     T('int.day', 'int', ('date',), '{0}.day', 'date'),
     T('int.boolarith', 'int', ('boolattr', 'int'), '{0} + {1}'),
+    T('int.boolbool.add', 'int', ('boolattr', 'boolattr'), '{0} + {1}'), T('int.boolbool.mul', 'int', ('boolattr', 'boolattr'), '{0} * {1}'),
+    T('int.boolbool.sub', 'int', ('boolattr', 'boolattr'), '{0} - {1}'),
     T('float.div', 'float', ('num', 'num'), '{0} / {1}', 'div', 'float'),
     T('float.add', 'float', ('float', 'num'), '{0} + {1}', 'float'), T('float.sub', 'float', ('num', 'float'), '{0} - {1}', 'float'),
     T('float.mul', 'float', ('float', 'num'), '{0} * {1}', 'float'),
